@@ -64,6 +64,7 @@ func TestVerifC09_oprf_keys(t *testing.T) {
 				}
 				return verifmc.DecOracle{Member: v.Member, Reason: v.Reason, Point: v.Point}
 			},
+			AcceptOnly: func(in []byte) bool { return new(PublicKey).UnmarshalBinary(st.s, in) == nil },
 			Lib: func(in []byte) verifmc.DecResult {
 				pk := new(PublicKey)
 				if err := pk.UnmarshalBinary(st.s, in); err != nil {
